@@ -14,7 +14,7 @@ mod tail;
 pub(crate) mod ref_lex;
 pub(crate) mod head;
 pub(crate) mod guard;
-mod step;
+pub(crate) mod step;
 pub(crate) mod emit;
 mod table;
 mod mutc;
@@ -23,3 +23,4 @@ mod purity;
 mod oracle_native;
 mod memget;
 mod mutf;
+mod reach;
